@@ -187,6 +187,17 @@ func (ex *Exec) loopWriteSet(li *loopInfo, pre *State, cells map[*ssa.Alloc]bool
 				for _, k := range []string{c.keyMapHas(mt), c.keyMapVal(mt), c.keyMapLen(mt)} {
 					add(k, in.Map, false)
 				}
+			case *ssa.Next:
+				// advancing a map iteration updates the ghost set of produced keys of that map
+				if rg, ok := in.Iter.(*ssa.Range); ok && !in.IsString {
+					if mt, ok := rg.X.Type().Underlying().(*types.Map); ok {
+						add(c.keyMapVisited(mt), rg.X, false)
+					}
+				}
+			case *ssa.Range:
+				if mt, ok := in.X.Type().Underlying().(*types.Map); ok {
+					add(c.keyMapVisited(mt), in.X, false)
+				}
 			case *ssa.Call, *ssa.Defer:
 				var cc *ssa.CallCommon
 				if call, ok := in.(*ssa.Call); ok {
